@@ -2,11 +2,11 @@ SPECIFICATION Spec
 CONSTANTS
   Mode = "lattice"
   Vals = {0, 6, 10}
-  Fams = {1, 2}
+  Fams = {7, 2}
   AllowDeps = FALSE
   D = 1
-  Ste = "identity"
+  Ste = "clipped"
   TVals = {0}
   KFull = 1
   KMax = 1
-INVARIANT InvStrictEverywhere
+INVARIANT InvDiscSteSupport
